@@ -57,7 +57,7 @@ def model(kind, fp_start):
     return ModelSpec(f"model{kind}", ops, nodes, edges, note=f"history model {kind}")
 
 
-STEP_KINDS = ['compile', 'compile_keep', 'compile_inplace', 'compile_inplace_noclear', 'compile_decorated', 'run', 'run_noclear', 'run_inplace',
+STEP_KINDS = ['compile', 'compile_keep', 'compile_inplace', 'compile_inplace_edge_values', 'compile_inplace_noclear', 'compile_decorated', 'run', 'run_noclear', 'run_inplace',
               'jac', 'clear', 'clear_frontend', 'update_var', 'yaml']
 
 
@@ -114,6 +114,14 @@ def job_fn(job):
                         # in-place translation followed by clear(): the template object stays usable
                         ct.get_run_func('vf', step_size=0.25, vectorize=v, verbose=False, float_precision='float64',
                                         in_place=True, clear=True, file_name='pyrates_run')
+                    elif act == 'compile_inplace_edge_values':
+                        # an in-place translation that is GIVEN values for one edge and one node variable; they belong to
+                        # that translation only
+                        e0 = specs[m].edges[0]
+                        ct.get_run_func('vf', step_size=0.25, vectorize=v, verbose=False, float_precision='float64',
+                                        in_place=True, clear=True, file_name='pyrates_run',
+                                        edge_values={(e0.src, e0.tgt): {'weight': 6.75}},
+                                        node_values={first_state(specs[m]): 7.25})
                     elif act == 'compile_inplace_noclear':
                         # in-place translation that is kept on the template (clear=False)
                         ct.get_run_func('vf', step_size=0.25, vectorize=v, verbose=False, float_precision='float64',
@@ -302,6 +310,9 @@ def histories(tier, seed):
             H.append([(dec, 'compile_inplace', v)])
     H.append([('E', 'compile_decorated', True), ('E', 'compile_decorated', True)])
     for v in (True, False):
+        H.append([('A', 'compile_inplace_edge_values', v)])
+        H.append([('C', 'compile_inplace_edge_values', v), ('A', 'compile_inplace_edge_values', v)])
+    for v in (True, False):
         H.append([('A', 'compile_inplace_noclear', v)])
     H.append([('A', 'compile_inplace', True), ('A', 'compile_inplace', False)])
     H.append([('A', 'compile_inplace', False), ('A', 'compile_inplace', True)])
@@ -331,7 +342,7 @@ def run(tier='quick', seed=0, only=None, verbose=False):
                 jobs.append(dict(key=f"h{hi}:{'>'.join(f'{m}.{a}.{int(v)}' for m, a, v in h)}|target={tgt}|vec={vec}",
                                  history=h, target=tgt, vectorize=vec, spec=model(tgt, 40 * 'ABCDE'.index(tgt))))
                 # the same template object again, when the history only translated it (in place + clear, or copies)
-                if any(m == tgt for m, a, _ in h) and all(a in ('compile', 'compile_keep', 'compile_inplace',
+                if any(m == tgt for m, a, _ in h) and all(a in ('compile', 'compile_keep', 'compile_inplace', 'compile_inplace_edge_values',
                                                                  'compile_inplace_noclear', 'compile_decorated', 'jac', 'yaml', 'update_var',
                                                                  'clear_frontend', 'run', 'run_noclear')
                                                           for m, a, _ in h if m == tgt):
